@@ -18,6 +18,15 @@ let run (f : string list) : string =
        | Err _ -> "E"
        | Ok ((v, rest), ws) ->
            Printf.sprintf "%s %d %d" (hex v) (List.length s - List.length rest) (if ws then 1 else 0))
+  | ["xmlrt"; a; h] ->
+      (* same as the C driver: print, terminator and a slash, read back *)
+      let attr = (a = "1") in
+      let endc = n_of_int (if attr then 34 else 60) in
+      let printed = xml_esc attr (unhex h) in
+      (match xml_value endc (printed @ [endc; n_of_int 47]) with
+       | Err _ -> "E parse"
+       | Ok ((v, rest), ws) ->
+           Printf.sprintf "%s %d %d" (hex v) (if List.length rest = 2 then 1 else 0) (if ws then 1 else 0))
   | _ -> "?"
 
 let () = main_loop run
